@@ -7,6 +7,7 @@ man = json.loads((ROOT / "MANIFEST.json").read_text())
 targets = ["OdcGeo.Audit"]
 for c in man["checks"]:
     pid = c["property_id"]
-    targets += [f"OdcGeo.Props.{pid}", f"driver_{pid.lower()}"]
+    targets += [f"OdcGeo.Props.{f.stem}" for f in sorted((ROOT / "lean" / "OdcGeo" / "Props").glob(f"{pid}*.lean"))]
+    targets.append(f"driver_{pid.lower()}")
 p = subprocess.run(["lake", "build", *targets], cwd=str(ROOT / "lean"))
 sys.exit(p.returncode)
